@@ -249,3 +249,27 @@ Proof.
   destruct (stored_get d x Hc Hst) as [i [Hi Hg]]. destruct (coherent_primary d i x Hc Hg) as [_ [_ [Hh [Hpk _]]]].
   eapply C12_kv_newest; eauto. apply must_match_residual; auto.
 Qed.
+
+(* ------------------------------------------------------------------ (c) several filters in one REQ *)
+(* Each filter of a REQ is planned and served on its own (under its own limit): what the subscriber receives before EOSE
+   is the concatenation, in order, of what it would receive for each of the first `maximum_plans` filters sent alone. *)
+Lemma concat_map_flat_map {A B C} (g : B -> list C) (h : A -> list B) (l : list A) :
+  concat (map g (flat_map h l)) = flat_map (fun a => concat (map g (h a))) l.
+Proof.
+  induction l as [|a l IH]; simpl; [reflexivity|].
+  rewrite map_app, concat_app, IH. reflexivity.
+Qed.
+
+Theorem C12_kv_req_is_concat dl mx d fs :
+  answer_kv dl mx d fs = flat_map (fun f => answer_kv dl mx d [f]) (firstn maximum_plans fs).
+Proof.
+  unfold answer_kv, executor, planner. rewrite concat_map_flat_map.
+  apply flat_map_ext. intros f. change (firstn maximum_plans [f]) with [f]. simpl. rewrite app_nil_r. reflexivity.
+Qed.
+
+(* in particular: no filter's answer is affected by the other filters of the REQ, and the length bound adds up *)
+Corollary C12_kv_req_filter_independent dl mx d fs f e :
+  In f (firstn maximum_plans fs) -> In e (answer_kv dl mx d [f]) -> In e (answer_kv dl mx d fs).
+Proof.
+  intros Hf He. rewrite C12_kv_req_is_concat. apply in_flat_map. exists f. split; assumption.
+Qed.
